@@ -10,7 +10,7 @@ Supported MIR subset (anything else raises Unsupported -> the check is inconclus
             recursively) and to the modelled std float methods (models.h)
   closures  environments whose captures are all `&f64` (struct of pointers), 1-tuples of f64, `<closure as Fn<(f64,)>>::call`
             (the closure body is translated like any function)
-  models    `<Number as Deref>::deref` -> address of the field; `Color::new_rgba` (a const constructor) -> a store of its four
+  models    `<Number as Deref>::deref` -> address of the field; `Color::new_rgba` / `new_hsla` / `Hsl::new` (const constructors) -> a store of the four
             numeric arguments into `rs_color` (the `hsla` and `format` fields are not represented); `ColorFormat::*` -> 0
 """
 import re
@@ -108,6 +108,9 @@ class Translator:
             return "rs_color"
         if ty in ("color::ColorFormat", "ColorFormat"):
             return "uint8_t"
+        if ty in ("color::Hsl", "Hsl"):
+            self.dyn["rs_hsl"] = "typedef struct { double f0, f1, f2; } rs_hsl;"
+            return "rs_hsl"
         if ty == "(f64,)":
             self.dyn["tup1_f64"] = "typedef struct { double f0; } tup1_f64;"
             return "tup1_f64"
@@ -414,7 +417,13 @@ class Translator:
                         lines.append("  %s = %s(%s, %s.f0);" % (dstc, fn, cargs[0], cargs[1]))
                         lines.append("  goto bb%s;" % nb)
                         continue
-                    if re.fullmatch(r"(?:color::)?Color::new_rgba", callee):
+                    if re.fullmatch(r"(?:color::)?Hsl::new", callee):
+                        # const constructor of the cached HSL triple
+                        self.ctype("color::Hsl")
+                        lines.append("  %s = (rs_hsl){%s.f0, %s.f0, %s.f0};" % (dstc, cargs[0], cargs[1], cargs[2]))
+                        lines.append("  goto bb%s;" % nb)
+                        continue
+                    if re.fullmatch(r"(?:color::)?Color::(?:new_rgba|new_hsla)", callee):
                         # const constructor: stores its four numeric arguments (format / hsla are not represented in the model)
                         self.ctype("color::Color")
                         lines.append("  %s = (rs_color){%s.f0, %s.f0, %s.f0, %s.f0};" % (dstc, cargs[0], cargs[1], cargs[2], cargs[3]))
